@@ -83,6 +83,32 @@ func (s *engineSuite) do(t []string) string {
 			}
 		}
 		return "batch " + commitLine(b.Commit(ctx))
+	case "bigbatch":
+		// bigbatch <n> <hexprefix>: ONE batch of n puts under the prefix followed by a compare-and-swap on a missing
+		// key (its condition fails): whatever error the engine reports (failed condition, or "transaction too big"),
+		// nothing of the batch may be visible afterwards
+		n := atoi(t[1])
+		pfx := string(unhx(t[2]))
+		b := s.kv.BeginBatchWrite()
+		for i := 0; i < n; i++ {
+			b.Put([]byte(fmt.Sprintf("%s%07d", pfx, i)), []byte("new"), 0)
+		}
+		b.CAS([]byte(pfx+"~missing"), []byte("x"), []byte("y"), 0)
+		err := b.Commit(ctx)
+		visible := 0
+		it, ierr := s.kv.Iter(ctx, []byte(pfx), []byte(pfx+"\xff"), 0, 0)
+		if ierr == nil {
+			for it.Next(ctx) == nil {
+				if string(it.Val()) == "new" {
+					visible++
+				}
+			}
+			it.Close()
+		}
+		if err == nil {
+			return fmt.Sprintf("bigbatch ok visible=%d", visible)
+		}
+		return fmt.Sprintf("bigbatch failed visible=%d", visible)
 	case "get":
 		v, err := s.kv.Get(ctx, unhx(t[1]))
 		if err == storage.ErrKeyNotFound {
